@@ -72,6 +72,8 @@ pub struct FaultPlan {
     pub from: Option<(u32, Fault)>,
     /// fail the n-th..(n+k)-th call of a class
     pub class: Option<(IoClass, u32, u32, Fault)>,
+    /// fail every data write of at least this many bytes (others proceed)
+    pub data_min_len: Option<(usize, Fault)>,
 }
 
 #[derive(Default)]
@@ -128,6 +130,19 @@ impl FileMon {
         (s.pins_seen, s.pin_checks, s.pin_violations.clone())
     }
 
+    fn decide_len(state: &mut FileState, class: IoClass, len: usize) -> (u32, Option<Fault>) {
+        let (call, mut fault) = FileMon::decide(state, class);
+        if fault.is_none() && class == IoClass::DataWrite {
+            if let Some((min, f)) = state.plan.data_min_len {
+                if len >= min {
+                    fault = Some(f);
+                    state.consumed.push((call, class, f));
+                }
+            }
+        }
+        (call, fault)
+    }
+
     fn decide(state: &mut FileState, class: IoClass) -> (u32, Option<Fault>) {
         let call = state.calls;
         state.calls += 1;
@@ -181,7 +196,7 @@ impl FileMon {
             // SQE submissions are observed, not failable; they do not get a call index
             (u32::MAX, None)
         } else {
-            FileMon::decide(&mut s, class)
+            FileMon::decide_len(&mut s, class, data.len())
         };
         s.last_write_class = Some(class);
         let applied = fault != Some(Fault::Before);
